@@ -92,7 +92,7 @@ def gen(chk, mpmath, rng):
                     yield None; continue
                 yield ex.relabs_close(y1, y2, 8, p), {"key": "samereal/" + f, "f": f, "a": str(a), "b": str(b), "z": str(z), "p": p,
                                                        "what": "values at precisions p and 2p+30 are not approximations of one real number"}
-        except (ZeroDivisionError, ValueError, mpmath.libmp.NoConvergence, NotImplementedError):
+        except (ZeroDivisionError, ValueError, TypeError, mpmath.libmp.NoConvergence, NotImplementedError):
             yield None
 
 
